@@ -42,11 +42,14 @@ def import_library():
 class Outcome:
     """Result of evaluating the oracle on one case."""
     __slots__ = ("fail", "nontrivial", "classes", "known", "skip", "weight",
-                 "keys")
+                 "keys", "distinct")
 
     def __init__(self, fail=None, nontrivial=False, classes=(), known=None,
-                 skip=False, weight=1, keys=None):
+                 skip=False, weight=1, keys=None, distinct=0):
         self.keys = keys            # optional: distinct non-trivial sub-cases
+        self.distinct = distinct    # optional: count of sub-cases that are
+        #                             distinct by construction (enumerations
+        #                             too large to keep as a key set)
         self.fail = fail            # None or a message "clause: details"
         self.nontrivial = nontrivial
         self.classes = classes      # iterable of class labels for the histogram
@@ -85,6 +88,7 @@ class Ctx:
         self.cases = 0
         self.skipped = 0
         self.nontrivial = set()
+        self.distinct_counted = 0
         self.classes = Counter()
         self.known_hits = Counter()
         self.samples = {}           # digest -> case (keep smallest digests)
@@ -111,6 +115,7 @@ class Ctx:
             self.classes[c] += 1
         if out.known:
             self.known_hits[out.known] += 1
+        self.distinct_counted += out.distinct
         if out.keys is not None:
             fresh = not self.nontrivial.issuperset(out.keys)
             self.nontrivial.update(out.keys)
@@ -216,6 +221,7 @@ class Ctx:
             "index": self.index, "evaluations": self.evaluations,
             "cases": self.cases, "skipped": self.skipped,
             "nontrivial": sorted(self.nontrivial),
+            "distinct_counted": self.distinct_counted,
             "classes": dict(self.classes),
             "known_hits": dict(self.known_hits),
             "samples": self.first_samples + [
@@ -386,7 +392,8 @@ def run_check(pid, tier, seed):
     wall = time.time() - t0
     coverage = {
         "evaluations": int(evaluations),
-        "distinct_nontrivial": len(nontrivial),
+        "distinct_nontrivial": len(nontrivial) + sum(
+            r["distinct_counted"] for r in results),
         "rule": mod.RULE,
         "samples": samples or [{"note": "no non-trivial sample recorded"}],
         "classes": dict(sorted(classes.items())),
@@ -420,7 +427,7 @@ def run_check(pid, tier, seed):
     print("%s property=%s tier=%s seed=%s evaluations=%d distinct_nontrivial=%d"
           " known_hits=%d wall=%.1fs" % (
               "FAIL" if violations else "OK", pid, tier, seed, evaluations,
-              len(nontrivial), sum(known_hits.values()), wall))
+              coverage["distinct_nontrivial"], sum(known_hits.values()), wall))
     return 1 if violations else 0
 
 
